@@ -22,20 +22,20 @@ inductive Matches (fl : FnFlags) : List Tok → List Nat → Prop
   | cls (n : Bool) (it : List CItem) (x : Nat) (ts : List Tok) (s : List Nat) :
       okWild fl x = true → classHas fl n it x = true → Matches fl ts s →
       Matches fl (.cls n it :: ts) (x :: s)
-  | star0 (ts : List Tok) (s : List Nat) : Matches fl ts s → Matches fl (.star :: ts) s
-  | starS (x : Nat) (ts : List Tok) (s : List Nat) :
-      okWild fl x = true → Matches fl (.star :: ts) s → Matches fl (.star :: ts) (x :: s)
+  | star0 (m : Bool) (ts : List Tok) (s : List Nat) : Matches fl ts s → Matches fl (.star m :: ts) s
+  | starS (m : Bool) (x : Nat) (ts : List Tok) (s : List Nat) :
+      okWild fl x = true → Matches fl (.star m :: ts) s → Matches fl (.star m :: ts) (x :: s)
 
-theorem starMatch_sound (fl : FnFlags) (ts : List Tok) (k : List Nat → Bool)
+theorem starMatch_sound (fl : FnFlags) (m : Bool) (ts : List Tok) (k : List Nat → Bool)
     (hk : ∀ s, k s = true → Matches fl ts s) (s : List Nat)
-    (h : starMatch k (okWild fl) s = true) : Matches fl (.star :: ts) s := by
+    (h : starMatch k (okWild fl) s = true) : Matches fl (.star m :: ts) s := by
   induction s with
-  | nil => exact .star0 _ _ (hk [] (by simpa [starMatch] using h))
+  | nil => exact .star0 _ _ _ (hk [] (by simpa [starMatch] using h))
   | cons x s ih =>
     simp only [starMatch, Bool.or_eq_true, Bool.and_eq_true] at h
     rcases h with h | ⟨h1, h2⟩
-    · exact .star0 _ _ (hk _ h)
-    · exact .starS _ _ _ h1 (ih h2)
+    · exact .star0 _ _ _ (hk _ h)
+    · exact .starS _ _ _ _ h1 (ih h2)
 
 theorem starMatch_of_k (k : List Nat → Bool) (ok : Nat → Bool) (s : List Nat) (h : k s = true) :
     starMatch k ok s = true := by
@@ -73,9 +73,9 @@ theorem refMatch_sound (fl : FnFlags) (ts : List Tok) (s : List Nat)
       | cons x r =>
         simp only [refMatch, Bool.and_eq_true] at h
         exact .cls n it x ts r h.1.1 h.1.2 (ih r h.2)
-    | star =>
+    | star m =>
       simp only [refMatch] at h
-      exact starMatch_sound fl ts _ ih s h
+      exact starMatch_sound fl m ts _ ih s h
 
 theorem refMatch_complete (fl : FnFlags) (ts : List Tok) (s : List Nat)
     (h : Matches fl ts s) : refMatch fl ts s = true := by
@@ -85,10 +85,10 @@ theorem refMatch_complete (fl : FnFlags) (ts : List Tok) (s : List Nat)
   | lit c x ts s h1 _ ih => simp [refMatch, h1, ih]
   | any x ts s h1 _ ih => simp [refMatch, h1, ih]
   | cls n it x ts s h1 h2 _ ih => simp [refMatch, h1, h2, ih]
-  | star0 ts s _ ih =>
+  | star0 m ts s _ ih =>
     simp only [refMatch]
     exact starMatch_of_k _ _ _ ih
-  | starS x ts s h1 _ ih =>
+  | starS m x ts s h1 _ ih =>
     simp only [refMatch] at ih ⊢
     simp [starMatch, h1, ih]
 
